@@ -258,10 +258,11 @@ Fixpoint rechunk_loop (o : options) (cs : list chunk) (r : rstate) : rstate :=
       rechunk_loop o rest (fold_left (rechunk_piece o c (next_is_nl rest) (is_last rest)) (split_inclusive (c_str c)) r0)
   end.
 
+(* every line is followed by a newline chunk -- also the last one: a second run sees the newline that format_tokens
+   pushes in front of the Eof token (`nop` re-parses to the chunks [nop; "\n"], `nop` + empty line to [nop; "\n"; "\n"]) *)
 Fixpoint join_groups (gs : list (list chunk)) : list chunk :=
   match gs with
   | [] => []
-  | [g] => g
   | g :: rest => g ++ mkChunk None 0 [NL] :: join_groups rest
   end.
 
